@@ -3,7 +3,7 @@
 # plus crosshair-tool / z3-solver from the offline wheelhouse.  Idempotent, offline.
 set -e
 cd "$(dirname "$0")"
-V=/verif/.venv
+V="$(pwd)/.venv"
 if [ -x "$V/bin/python" ] && "$V/bin/python" -c "import crosshair, z3, simplejson, pyfaidx" 2>/dev/null; then
     echo "setup: $V already usable"; exit 0
 fi
